@@ -454,6 +454,8 @@ func checkC15(c *Ctx) {
 		}
 		c.check(ok, "O7 reporter-survives", key, fl.Pos(), "a write error is counted and flush returns normally", why+": one failed batch stops the reporter")
 	}
+	c.checkFlushCompletesMessage("O8 flush-completes-message")
+	c.checkNoStandingDeadline("O9 no-standing-deadline")
 }
 
 func asInstr(v ssa.Value) ssa.Instruction {
@@ -600,4 +602,231 @@ func indexOfSucc(b, s *ssa.BasicBlock) int {
 		}
 	}
 	return 0
+}
+
+// checkFlushCompletesMessage (O8): a transport Flush SENDS what is buffered. In the reporter, the
+// generated thrift clients / processors and the transports, a Flush of a thrift protocol or transport
+// is therefore issued only
+//   - by a Flush method of a protocol / transport itself (forwarding to what it wraps), or
+//   - after WriteMessageEnd of the same function; when that call's error is tested, on the edge
+//     where it succeeded.
+// A Flush anywhere else (an error path "to clear the buffer") puts the abandoned prefix of a refused
+// message, or an empty datagram, on the wire.
+func (c *Ctx) checkFlushCompletesMessage(rule string) {
+	tp := c.pkg(thriftPkg)
+	if tp == nil {
+		c.missing(rule, "vendored thrift package")
+		return
+	}
+	var ifaces []*types.Interface
+	for _, n := range []string{"TTransport", "TProtocol"} {
+		if o, _ := tp.Types.Scope().Lookup(n).(*types.TypeName); o != nil {
+			if it, ok := o.Type().Underlying().(*types.Interface); ok {
+				ifaces = append(ifaces, it)
+			}
+		}
+	}
+	if len(ifaces) != 2 {
+		c.missing(rule, "thrift.TTransport / thrift.TProtocol")
+		return
+	}
+	isWire := func(t types.Type) bool {
+		if t == nil {
+			return false
+		}
+		for _, it := range ifaces {
+			if types.Implements(t, it) {
+				return true
+			}
+			if _, isPtr := t.(*types.Pointer); !isPtr {
+				if _, isI := t.Underlying().(*types.Interface); !isI && types.Implements(types.NewPointer(t), it) {
+					return true
+				}
+			}
+		}
+		return false
+	}
+	methodOn := func(ci ssa.CallInstruction, name string) ssa.Value {
+		cc := ci.Common()
+		if cc.IsInvoke() {
+			if cc.Method.Name() == name && isWire(cc.Value.Type()) {
+				return cc.Value
+			}
+			return nil
+		}
+		if g := cc.StaticCallee(); g != nil && g.Name() == name && g.Signature.Recv() != nil && len(cc.Args) > 0 && isWire(cc.Args[0].Type()) {
+			return cc.Args[0]
+		}
+		if m := thunkMethod(cc); m != nil && m.Name() == name && len(cc.Args) > 0 && isWire(cc.Args[0].Type()) {
+			return cc.Args[0]
+		}
+		return nil
+	}
+	n, nBad := 0, 0
+	for _, pk := range []string{"m3", "m3/thrift/v1", "m3/thrift/v2", "m3/thriftudp", "m3/customtransports"} {
+		for _, fn := range c.funcsOfPkg(pk) {
+			fn := fn
+			instrsOf(fn, func(in ssa.Instruction) {
+				ci, ok := in.(ssa.CallInstruction)
+				if !ok || methodOn(ci, "Flush") == nil {
+					return
+				}
+				n++
+				c.sawFunc(c.fnKey(fn))
+				// a Flush method of a protocol / transport forwarding to what it wraps
+				if fn.Name() == "Flush" && fn.Signature.Recv() != nil && isWire(fn.Signature.Recv().Type()) {
+					return
+				}
+				// after WriteMessageEnd, on its success edge when tested
+				okSite := false
+				instrsOf(fn, func(e ssa.Instruction) {
+					ec, isCall := e.(*ssa.Call)
+					if !isCall || methodOn(ec, "WriteMessageEnd") == nil {
+						return
+					}
+					if !dominates(e, in) {
+						return
+					}
+					tested := false
+					onSuccess := false
+					for _, b := range fn.Blocks {
+						iff, isIf := condOf(b)
+						if !isIf {
+							continue
+						}
+						o, x, y, okc := cmpOf(iff.Cond)
+						if !okc || !isNilConst(y) || !valueFlowsFrom(x, ec) {
+							continue
+						}
+						tested = true
+						succ := 1 // err != nil: false edge
+						if o == token.EQL {
+							succ = 0
+						}
+						if edgeDominates(b, succ, in.Block()) {
+							onSuccess = true
+						}
+					}
+					if !tested || onSuccess {
+						okSite = true
+					}
+				})
+				if !okSite {
+					nBad++
+					c.bad(rule, fmt.Sprintf("%s#%d", c.fnKey(fn), n), in.Pos(), "a thrift protocol / transport is flushed on a path where no message was completed (not a forwarding Flush method, not after a successful WriteMessageEnd): Flush sends what is buffered, so the prefix of a refused message - or an empty datagram - goes on the wire", c.describe(in))
+				}
+			})
+		}
+	}
+	if nBad == 0 {
+		c.ok(rule, "m3 packages", token.NoPos, fmt.Sprintf("all %d Flush calls on thrift protocols / transports are forwarding Flush methods or follow a successful WriteMessageEnd", n))
+	}
+	c.floor(rule, n, 4)
+}
+
+// valueFlowsFrom: v is src, possibly through a named-result cell / phi / interface conversion.
+func valueFlowsFrom(v ssa.Value, src ssa.Value) bool {
+	seen := map[ssa.Value]bool{}
+	var walk func(v ssa.Value, d int) bool
+	walk = func(v ssa.Value, d int) bool {
+		if d == 0 || seen[v] {
+			return false
+		}
+		seen[v] = true
+		v = stripConv(v)
+		if v == src {
+			return true
+		}
+		switch x := v.(type) {
+		case *ssa.Phi:
+			for _, e := range x.Edges {
+				if walk(e, d-1) {
+					return true
+				}
+			}
+		case *ssa.UnOp:
+			if x.Op == token.MUL {
+				if al, ok := x.X.(*ssa.Alloc); ok && al.Referrers() != nil {
+					for _, r := range *al.Referrers() {
+						if st, isSt := r.(*ssa.Store); isSt && st.Addr == ssa.Value(al) && walk(st.Val, d-1) {
+							return true
+						}
+					}
+				}
+			}
+		}
+		return false
+	}
+	return walk(v, 6)
+}
+
+// checkNoStandingDeadline (O9): a socket deadline is an absolute point in time. Armed anywhere but in
+// the function that performs the bounded operation right after it (per-send form), it eventually lies
+// in the past and every later Flush fails with an i/o timeout while sending nothing. Expected count of
+// deadline calls on today's tree: zero (the self-test keeps a mutant that arms one in the constructor).
+func (c *Ctx) checkNoStandingDeadline(rule string) {
+	n, nBad := 0, 0
+	nFuncs := 0
+	for _, pk := range []string{"m3", "m3/thriftudp", "m3/customtransports"} {
+		for _, fn := range c.funcsOfPkg(pk) {
+			fn := fn
+			nFuncs++
+			instrsOf(fn, func(in ssa.Instruction) {
+				ci, ok := in.(ssa.CallInstruction)
+				if !ok {
+					return
+				}
+				nm := ""
+				if g := ci.Common().StaticCallee(); g != nil {
+					nm = g.Name()
+				} else if ci.Common().IsInvoke() {
+					nm = ci.Common().Method.Name()
+				}
+				if nm != "SetDeadline" && nm != "SetWriteDeadline" && nm != "SetReadDeadline" {
+					return
+				}
+				n++
+				// per-operation form: the same function performs the socket operation after it
+				follows := false
+				instrsOf(fn, func(e ssa.Instruction) {
+					ec, isCall := e.(ssa.CallInstruction)
+					if !isCall || e == in {
+						return
+					}
+					en := ""
+					if g := ec.Common().StaticCallee(); g != nil {
+						en = g.Name()
+					} else if ec.Common().IsInvoke() {
+						en = ec.Common().Method.Name()
+					}
+					switch en {
+					case "Write", "Read", "WriteTo", "ReadFrom", "WriteToUDP", "ReadFromUDP":
+						if callRecv(ec) != nil && callRecv(ci) != nil && accessPath(callRecv(ec)) == accessPath(callRecv(ci)) && dominates(in, e) {
+							follows = true
+						}
+					}
+				})
+				// clearing the deadline (zero time) is always fine
+				args := callArgs(ci)
+				zero := false
+				if len(args) == 1 {
+					if _, isK := stripConv(args[0]).(*ssa.Const); isK {
+						zero = true
+					}
+					if u, isU := args[0].(*ssa.UnOp); isU && u.Op == token.MUL {
+						if al, isAl := u.X.(*ssa.Alloc); isAl && spilled(al) == nil && al.Referrers() != nil && len(*al.Referrers()) == 1 {
+							zero = true
+						}
+					}
+				}
+				if !follows && !zero {
+					nBad++
+					c.bad(rule, fmt.Sprintf("%s#%d", c.fnKey(fn), n), in.Pos(), "a socket deadline is armed in a function that does not perform the bounded operation itself: the deadline is an absolute time, so once it has passed every Flush fails with an i/o timeout and sends nothing of what was written", c.describe(in))
+				}
+			})
+		}
+	}
+	if nBad == 0 {
+		c.ok(rule, "m3 transports", token.NoPos, fmt.Sprintf("%d socket deadline calls in %d functions, none outside the function performing the operation", n, nFuncs))
+	}
 }
